@@ -9,6 +9,8 @@
 (*      configurations                                                     *)
 (*   U  get_filename:   URLs (2 schemes x 4 host/query forms x paths of    *)
 (*      <= 3 catalogue segments) x 64 structural configurations            *)
+(*   X  get_filename:   the same URLs x 120 sanitiser configurations with  *)
+(*      protocol + host directories and cut 1                              *)
 (*   H  writer session: Content-Disposition values (<= 4 symbols +         *)
 (*      catalogue) x 3 URLs x 16 configurations                            *)
 (***************************************************************************)
@@ -22,28 +24,39 @@ vars == <<st, i1, sc, res>>
 Range(f) == {f[i] : i \in DOMAIN f}
 Strs(C, k) == UNION {[1..n -> Range(C)] : n \in 0..k}
 
-N1 == CASE Cluster = "P" -> 120 [] Cluster = "U" -> 64 [] Cluster = "H" -> 16
-
-\* (the empty string is not a path part: no caller passes one)
-PartSpace == {[t |-> p, al |-> Len(p) < 3] : p \in Strs(PartClasses, 3) \ {<<>>}} \cup {[t |-> PartCat[i], al |-> TRUE] : i \in 1..Len(PartCat)}
-
-SegLists == {<<>>} \cup {<<a>> : a \in 1..Len(NameSegs)} \cup {<<a, b>> : a \in 1..Len(NameSegs), b \in 1..Len(NameSegs)}
-            \cup {<<a, b, c>> : a \in 1..Len(NameSegs), b \in 1..Len(NameSegs), c \in 1..Len(NameSegs)}
-UrlSpace == {[t  |-> NameSchemes[s] \o NameHostQuery[h][1] \o <<SLASH>> \o Join([k \in 1..Len(sg) |-> NameSegs[sg[k]]], SLASH)
-                     \o (IF tr /\ Len(sg) > 0 THEN <<SLASH>> ELSE <<>>) \o NameHostQuery[h][2],
-              al |-> Len(sg) < 2] :
-               s \in 1..Len(NameSchemes), h \in 1..Len(NameHostQuery), sg \in SegLists, tr \in BOOLEAN}
-
-CDSpace == {[t |-> Flat(v), al |-> Len(v) < 3] : v \in Strs(CDSymbols, 4)} \cup {[t |-> CDCat[i], al |-> TRUE] : i \in 1..Len(CDCat)}
+N1 == CASE Cluster = "P" -> 120 [] Cluster = "U" -> 64 [] Cluster = "H" -> 16 [] Cluster = "X" -> 120
 
 Keep(x) == SampleMod = 1 \/ x.al \/ Hash(x.t) % SampleMod = SampleRem
 
+\* The kept inputs of the cluster: 0-ary, so TLC computes each set once (and only the one of this cluster).
+\* (the empty string is not a path part: no caller passes one)
+KeptParts ==
+  IF Cluster # "P" THEN {}
+  ELSE {y \in {[t |-> p, al |-> Len(p) < 2] : p \in Strs(PartClasses, 3) \ {<<>>}} : Keep(y)}
+       \cup {[t |-> PartCat[i], al |-> TRUE] : i \in 1..Len(PartCat)}
+
+SegLists == {<<>>} \cup {<<a>> : a \in 1..Len(NameSegs)} \cup {<<a, b>> : a \in 1..Len(NameSegs), b \in 1..Len(NameSegs)}
+            \cup {<<a, b, c>> : a \in 1..Len(NameSegs), b \in 1..Len(NameSegs), c \in 1..Len(NameSegs)}
+KeptUrls ==
+  IF Cluster \notin {"U", "X"} THEN {}
+  ELSE {y \in {[t  |-> NameSchemes[s] \o NameHostQuery[h][1] \o <<SLASH>> \o Join([k \in 1..Len(sg) |-> NameSegs[sg[k]]], SLASH)
+                       \o (IF tr /\ Len(sg) > 0 THEN <<SLASH>> ELSE <<>>) \o NameHostQuery[h][2],
+                al |-> Len(sg) < 1] :
+                 s \in 1..Len(NameSchemes), h \in 1..Len(NameHostQuery), sg \in SegLists, tr \in BOOLEAN} : Keep(y)}
+
+KeptCD ==
+  IF Cluster # "H" THEN {}
+  ELSE {y \in {[t |-> Flat(v), al |-> Len(v) < 2] : v \in Strs(CDSymbols, 4)} : Keep(y)}
+       \cup {[t |-> CDCat[i], al |-> TRUE] : i \in 1..Len(CDCat)}
+
 \* scenario record: kind, cfg, and the input
 Scen(i) ==
-  CASE Cluster = "P" -> {[cl |-> "P", cfg |-> SanCfgs[i], part |-> x.t, url |-> <<>>, cd |-> <<>>, hascd |-> FALSE] : x \in {y \in PartSpace : Keep(y)}}
-    [] Cluster = "U" -> {[cl |-> "U", cfg |-> StructCfgs[i], part |-> <<>>, url |-> x.t, cd |-> <<>>, hascd |-> FALSE] : x \in {y \in UrlSpace : Keep(y)}}
+  CASE Cluster = "P" -> {[cl |-> "P", cfg |-> SanCfgs[i], part |-> x.t, url |-> <<>>, cd |-> <<>>, hascd |-> FALSE] : x \in KeptParts}
+    [] Cluster = "U" -> {[cl |-> "U", cfg |-> StructCfgs[i], part |-> <<>>, url |-> x.t, cd |-> <<>>, hascd |-> FALSE] : x \in KeptUrls}
+    [] Cluster = "X" -> {[cl |-> "U", cfg |-> [SanCfgs[i] EXCEPT !.ud = TRUE, !.cut = 1, !.pr = TRUE, !.hn = TRUE],
+                             part |-> <<>>, url |-> x.t, cd |-> <<>>, hascd |-> FALSE] : x \in KeptUrls}
     [] Cluster = "H" -> {[cl |-> "H", cfg |-> CDCfgs[i], part |-> <<>>, url |-> CDUrls[u], cd |-> x.t, hascd |-> TRUE] :
-                            x \in {y \in CDSpace : Keep(y)}, u \in 1..Len(CDUrls)}
+                            x \in KeptCD, u \in 1..Len(CDUrls)}
 
 \* the transcription on a scenario: [oc, parts]
 Model(s) ==
